@@ -643,8 +643,17 @@ def _illumina_case(seed):
         x = rng.randint(400, 4000)
         short.add((x, x + rng.randint(50, 600)))
     short = {s for s in short if s[0] < s[1]}
-    got = iec.IlluminaExonCorrector.from_data(short).correct_exons(list(exons))
+    corrector = iec.IlluminaExonCorrector.from_data(short)
+    import types
+    got = corrector.correct_read(types.SimpleNamespace(read_exons=list(exons)))
     problems = []
+    # a second read of the same region with the same introns and other ends, through correct_read of the SAME corrector object
+    ex2 = list(exons)
+    ex2[0] = (ex2[0][0] + rng.randint(1, 3), ex2[0][1]) if ex2[0][1] - ex2[0][0] >= 3 else ex2[0]
+    ex2[-1] = (ex2[-1][0], ex2[-1][1] + rng.randint(1, 40))
+    got2 = corrector.correct_read(types.SimpleNamespace(read_exons=list(ex2)))
+    if got2 and (got2[0][0], got2[-1][1]) != (ex2[0][0], ex2[-1][1]):
+        problems.append("second read of the region %s: start / end moved to %s" % (ex2, (got2[0][0], got2[-1][1])))
     if not got or any(a > b or a < 1 for a, b in got):
         problems.append("block with end before start: %s" % (got,))
     elif any(got[i][1] >= got[i + 1][0] for i in range(len(got) - 1)):
